@@ -233,22 +233,22 @@ _EXTRA = {
     "C19": " Also: error-outcome configurations (dangling versions, case-mismatched references), deprecated dependencies with newer versions, twin roots with duplicated list entries, failed-call histories." + _HIST,
 }
 _EXTRA2 = {
-    "C03": " Reads aborted while documentation is pending, followed by documented definitions (doc-faults histories); comment texts that begin with '#' or blanks. Constants initialised from another definition's false / true / zero constants.",
+    "C03": " Reads aborted while documentation is pending, followed by documented definitions (doc-faults histories); comment texts that begin with '#' or blanks. Constants initialised from another definition's false / true / zero constants. Sections with @extent 0.",
     "C04": " Exact values beyond the range of a double (2**1024 .. 10**400, 2**-1100) as final and intermediate results.",
-    "C06": " Texts that are not in a Unicode normal form.",
-    "C08": " Every structure with two or more fields is walked, as one object, at base sets the approximate set equality cannot tell apart.",
+    "C06": " Texts that are not in a Unicode normal form. Dict key order at every nesting level; a failed write (one unencodable leaf at every position) before every other valid write.",
+    "C08": " Every structure with two or more fields is walked, as one object, at base sets the approximate set equality cannot tell apart. Intrinsics over zero-extent dependencies.",
     "C10": " A nested namespace repeating the root's name, root designated by bare name. Service definitions; objects of read_files == those of read_namespace; legacy files read repeatedly in one process.",
     "C11": " One of three minor versions edited in place between calls of one process (minor-version-edits histories). Legacy files read repeatedly in one process (legacy-repeats histories).",
     "C12": " ASCII characters next to lone surrogates. Constants built with the public constructors from Rational(int / Fraction / float), Boolean, String.",
-    "C14": " Floating-point members in the revision alphabets.",
-    "C15": " Absolute roots with targets relative to every working directory must be read (repair b8a7a3e); a file under exactly one of several same-named roots from every working directory. The same relative designation under changing working directories; targets whose names differ only by letter case.",
-    "C17": " String literals that denote line breaks through escapes. Six kinds of print handler through read_files and read_namespace.",
+    "C14": " Floating-point members in the revision alphabets. A failed write before every other valid write.",
+    "C15": " Absolute roots with targets relative to every working directory must be read (repair b8a7a3e); a file under exactly one of several same-named roots from every working directory. The same relative designation under changing working directories; targets whose names differ only by letter case. Control characters after the numeric fields of a file name.",
+    "C17": " String literals that denote line breaks through escapes. Six kinds of print handler through read_files and read_namespace. String literals holding raw FF / VT / LS / PS; @print in dependencies across repeated calls.",
     "C18": " Distinct bodies under one name and version, and their containers that collide under the approximate set equality. Results of bit length set queries modified by the caller.",
-    "C19": " Every small configuration also under strict=True. Self-reference / cycle next to a same-identity twin; shared-arguments histories.",
+    "C19": " Every small configuration also under strict=True. Self-reference / cycle next to a same-identity twin; shared-arguments histories. Lookup directories whose names extend the root's name.",
     "C01": " Every cat / uni tree also through one-shot iterators of raw operands.",
     "C02": " Arrays of arrays through the public constructors; capacities and extents written as expressions (chained **, left-associative chains).",
-    "C05": " Valid names that begin with a type keyword, in every reference position.",
-    "C13": " File-name twins holding services, unions, delimited and deprecated definitions.",
+    "C05": " Valid names that begin with a type keyword, in every reference position. Names taken from the file system (short names, namespace components, root) incl. trailing control characters.",
+    "C13": " File-name twins holding services, unions, delimited and deprecated definitions. Sets of array types; magnitudes at the 4300-digit conversion limit; directories named like definition files.",
     "C16": " Seven rejected templates (fault after a huge attribute).",
 }
 for _c in CHECKS:
